@@ -422,24 +422,24 @@ def ipLaws : MLaws (ipOps I) :=
 /-! ## HostMatcher: bucket union with the any-host fallback -/
 
 section
-variable (E : Env)
+variable {P : Type} [DecidableEq P] (H : HostCfg P)
 
-def Host.staticPart (I : MOps) (h : String) (q : Req) (e : HKey × I.M) : List Route :=
+def Host.staticPart (I : MOps) (h : String) (q : Req) (e : HKeyG P × I.M) : List Route :=
   match e.1 with
   | .static s => if s == h then I.matchReq e.2 q else []
   | .dyn _ => []
 
-theorem host_split (q : Req) (h : String) (hq : q.host = some h) (e : HKey × I.M) :
-    (if Host.accepts E e.1 q then I.matchReq e.2 q else []) =
-      Host.dynPart E I h q e ++ Host.staticPart I h q e := by
+theorem host_split (q : Req) (h : String) (hq : q.host = some h) (e : HKeyG P × I.M) :
+    (if Host.accepts H e.1 q then I.matchReq e.2 q else []) =
+      Host.dynPart H I h q e ++ Host.staticPart I h q e := by
   unfold Host.accepts Host.dynPart Host.staticPart
   rw [hq]
   cases e.1 <;> simp
 
-theorem host_staticPart_eq (m : List (HKey × I.M)) (hn : (akeys m).Nodup) (h : String) (q : Req) :
+theorem host_staticPart_eq (m : List (HKeyG P × I.M)) (hn : (akeys m).Nodup) (h : String) (q : Req) :
     m.flatMap (Host.staticPart I h q) =
-      ((alookup (HKey.static h) m).map (fun b => I.matchReq b q)).getD [] := by
-  rw [← flatMap_select m hn (HKey.static h) (fun b => I.matchReq b q)]
+      ((alookup (HKeyG.static h) m).map (fun b => I.matchReq b q)).getD [] := by
+  rw [← flatMap_select m hn (HKeyG.static h) (fun b => I.matchReq b q)]
   congr 1; funext e
   unfold Host.staticPart
   cases hk : e.1 with
@@ -449,20 +449,20 @@ theorem host_staticPart_eq (m : List (HKey × I.M)) (hn : (akeys m).Nodup) (h : 
     · simp [hx]
   | dyn p => simp
 
-theorem host_bound_perm (s : LState I HKey) (hn : (akeys s.map).Nodup) (q : Req) :
-    (Host.matchBound E I s q).Perm (lMatchMap I (Host.accepts E) s.map q) := by
+theorem host_bound_perm (s : LState I (HKeyG P)) (hn : (akeys s.map).Nodup) (q : Req) :
+    (Host.matchBound H I s q).Perm (lMatchMap I (Host.accepts H) s.map q) := by
   cases hq : q.host with
   | none =>
-    have h1 : Host.matchBound E I s q = [] := by unfold Host.matchBound; rw [hq]
-    have h2 : lMatchMap I (Host.accepts E) s.map q = [] := by
+    have h1 : Host.matchBound H I s q = [] := by unfold Host.matchBound; rw [hq]
+    have h2 : lMatchMap I (Host.accepts H) s.map q = [] := by
       unfold lMatchMap Host.accepts; simp [hq]
     rw [h1, h2]
   | some h =>
-    have h1 : lMatchMap I (Host.accepts E) s.map q =
-        s.map.flatMap (fun e => Host.dynPart E I h q e ++ Host.staticPart I h q e) := by
-      unfold lMatchMap; congr 1; funext e; exact host_split E q h hq e
-    have h2 : Host.matchBound E I s q =
-        s.map.flatMap (Host.dynPart E I h q) ++ s.map.flatMap (Host.staticPart I h q) := by
+    have h1 : lMatchMap I (Host.accepts H) s.map q =
+        s.map.flatMap (fun e => Host.dynPart H I h q e ++ Host.staticPart I h q e) := by
+      unfold lMatchMap; congr 1; funext e; exact host_split H q h hq e
+    have h2 : Host.matchBound H I s q =
+        s.map.flatMap (Host.dynPart H I h q) ++ s.map.flatMap (Host.staticPart I h q) := by
       rw [host_staticPart_eq s.map hn h q]
       unfold Host.matchBound
       rw [hq]
@@ -470,7 +470,7 @@ theorem host_bound_perm (s : LState I HKey) (hn : (akeys s.map).Nodup) (q : Req)
     rw [h1, h2]
     exact (flatMap_append_perm' _ _ _).symm
 
-theorem host_singleKey (r : Route) : (keysL Host.keysOf r).length ≤ 1 := by
+theorem host_singleKey (r : Route) : (keysL (Host.keysOf H) r).length ≤ 1 := by
   unfold keysL Host.keysOf
   cases r.host with
   | none => simp
@@ -481,17 +481,17 @@ theorem host_singleKey (r : Route) : (keysL Host.keysOf r).length ≤ 1 := by
 
 /-- some host-bound route of `L` is fully satisfied by `q` -/
 def hostBoundSat (L : List Route) (r : Route) (q : Req) : Bool :=
-  (keysL Host.keysOf r).any (fun k =>
-    Host.accepts E k q && IL.sat (L.filter (inKey Host.keysOf k)) r q)
+  (keysL (Host.keysOf H) r).any (fun k =>
+    Host.accepts H k q && IL.sat (L.filter (inKey (Host.keysOf H) k)) r q)
 
 /-- `sat` of the host layer: host-bound routes as in every layer; host-less routes additionally
 need `always_match_any_host` or that no host-bound route of this matcher is fully satisfied. -/
 def hostSat (L : List Route) (r : Route) (q : Req) : Bool :=
-  match Host.keysOf r with
+  match (Host.keysOf H) r with
   | none =>
-    IL.sat (L.filter (isAnyR Host.keysOf)) r q &&
-      (E.alwaysAnyHost || !(L.any (fun r' => hostBoundSat IL E L r' q)))
-  | some _ => hostBoundSat IL E L r q
+    IL.sat (L.filter (isAnyR (Host.keysOf H))) r q &&
+      (H.always || !(L.any (fun r' => hostBoundSat IL H L r' q)))
+  | some _ => hostBoundSat IL H L r q
 
 theorem isEmpty_iff_forall {α : Type} (l : List α) : l.isEmpty = true ↔ ∀ x, x ∉ l := by
   cases l with
@@ -500,74 +500,74 @@ theorem isEmpty_iff_forall {α : Type} (l : List α) : l.isEmpty = true ↔ ∀ 
     simp only [List.isEmpty_cons, Bool.false_eq_true, false_iff]
     intro h; exact h a (List.mem_cons_self ..)
 
-theorem host_mem_bound (s : LState I HKey) (L : List Route) (h : LRepr IL Host.keysOf s L)
+theorem host_mem_bound (s : LState I (HKeyG P)) (L : List Route) (h : LRepr IL (Host.keysOf H) s L)
     (hU : UIds L) (q : Req) (r : Route) :
-    r ∈ Host.matchBound E I s q ↔ r ∈ L ∧ hostBoundSat IL E L r q = true := by
-  rw [(host_bound_perm E s h.nodup q).mem_iff, mem_matchMap IL Host.keysOf (Host.accepts E) s L h hU]
+    r ∈ Host.matchBound H I s q ↔ r ∈ L ∧ hostBoundSat IL H L r q = true := by
+  rw [(host_bound_perm H s h.nodup q).mem_iff, mem_matchMap IL (Host.keysOf H) (Host.accepts H) s L h hU]
   unfold hostBoundSat
   simp only [List.any_eq_true, Bool.and_eq_true]
 
-theorem host_bound_empty (s : LState I HKey) (L : List Route) (h : LRepr IL Host.keysOf s L)
+theorem host_bound_empty (s : LState I (HKeyG P)) (L : List Route) (h : LRepr IL (Host.keysOf H) s L)
     (hU : UIds L) (q : Req) :
-    (Host.matchBound E I s q).isEmpty = !(L.any (fun r' => hostBoundSat IL E L r' q)) := by
+    (Host.matchBound H I s q).isEmpty = !(L.any (fun r' => hostBoundSat IL H L r' q)) := by
   rw [Bool.eq_iff_iff, isEmpty_iff_forall]
   simp only [Bool.not_eq_true', List.any_eq_false]
   constructor
   · intro hx r' hr' hs
-    exact hx r' ((host_mem_bound IL E s L h hU q r').2 ⟨hr', hs⟩)
+    exact hx r' ((host_mem_bound IL H s L h hU q r').2 ⟨hr', hs⟩)
   · intro hx r' hr'
-    rw [host_mem_bound IL E s L h hU q r'] at hr'
+    rw [host_mem_bound IL H s L h hU q r'] at hr'
     exact hx r' hr'.1 hr'.2
 
-theorem host_match_unfold (s : LState I HKey) (q : Req) :
-    Host.matchReq E I s q =
-      if E.alwaysAnyHost || (Host.matchBound E I s q).isEmpty
-      then Host.matchBound E I s q ++ I.matchReq s.any q else Host.matchBound E I s q := rfl
+theorem host_match_unfold (s : LState I (HKeyG P)) (q : Req) :
+    Host.matchReq H I s q =
+      if H.always || (Host.matchBound H I s q).isEmpty
+      then Host.matchBound H I s q ++ I.matchReq s.any q else Host.matchBound H I s q := rfl
 
-theorem host_mem_match (s : LState I HKey) (L : List Route) (h : LRepr IL Host.keysOf s L)
+theorem host_mem_match (s : LState I (HKeyG P)) (L : List Route) (h : LRepr IL (Host.keysOf H) s L)
     (hU : UIds L) (q : Req) (r : Route) :
-    r ∈ Host.matchReq E I s q ↔ r ∈ L ∧ hostSat IL E L r q = true := by
-  rw [host_match_unfold, host_bound_empty IL E s L h hU q]
-  have hb := host_mem_bound IL E s L h hU q r
-  have ha := mem_matchAny IL Host.keysOf s L h hU q r
+    r ∈ Host.matchReq H I s q ↔ r ∈ L ∧ hostSat IL H L r q = true := by
+  rw [host_match_unfold, host_bound_empty IL H s L h hU q]
+  have hb := host_mem_bound IL H s L h hU q r
+  have ha := mem_matchAny IL (Host.keysOf H) s L h hU q r
   unfold hostSat
-  cases hk : Host.keysOf r with
+  cases hk : (Host.keysOf H) r with
   | none =>
-    have hnb : hostBoundSat IL E L r q = false := by simp [hostBoundSat, keysL, hk]
+    have hnb : hostBoundSat IL H L r q = false := by simp [hostBoundSat, keysL, hk]
     rw [hnb] at hb
     simp only [hk, true_and] at ha
-    cases hc : (E.alwaysAnyHost || !(L.any (fun r' => hostBoundSat IL E L r' q)))
+    cases hc : (H.always || !(L.any (fun r' => hostBoundSat IL H L r' q)))
     · simp only [Bool.false_eq_true, if_false, hb, Bool.and_false, and_false]
     · simp only [if_true, List.mem_append, hb, ha, Bool.and_true]
       simp
   | some ks =>
     simp only [hk, false_and, and_false, reduceCtorEq] at ha
     simp only
-    cases hc : (E.alwaysAnyHost || !(L.any (fun r' => hostBoundSat IL E L r' q)))
+    cases hc : (H.always || !(L.any (fun r' => hostBoundSat IL H L r' q)))
     · simp only [Bool.false_eq_true, if_false, hb]
     · simp only [if_true, List.mem_append, hb, ha, or_false]
 
-theorem host_nodup_match (s : LState I HKey) (L : List Route) (h : LRepr IL Host.keysOf s L)
-    (hU : UIds L) (q : Req) : (Host.matchReq E I s q).Nodup := by
-  have hB : (Host.matchBound E I s q).Nodup := by
-    rw [(host_bound_perm E s h.nodup q).nodup_iff]
-    exact nodup_lMatchMap IL Host.keysOf (Host.accepts E)
-      (singleAccept_of_singleKey Host.keysOf _ host_singleKey) s L h hU q
+theorem host_nodup_match (s : LState I (HKeyG P)) (L : List Route) (h : LRepr IL (Host.keysOf H) s L)
+    (hU : UIds L) (q : Req) : (Host.matchReq H I s q).Nodup := by
+  have hB : (Host.matchBound H I s q).Nodup := by
+    rw [(host_bound_perm H s h.nodup q).nodup_iff]
+    exact nodup_lMatchMap IL (Host.keysOf H) (Host.accepts H)
+      (singleAccept_of_singleKey (Host.keysOf H) _ (host_singleKey H)) s L h hU q
   rw [host_match_unfold]
   split
   · rw [List.nodup_append]
     refine ⟨hB, IL.nodup_match _ _ q h.any (hU.filter _), ?_⟩
     intro x hx y hy hxy
     subst hxy
-    rw [host_mem_bound IL E s L h hU q x] at hx
-    rw [mem_matchAny IL Host.keysOf s L h hU q x] at hy
+    rw [host_mem_bound IL H s L h hU q x] at hx
+    rw [mem_matchAny IL (Host.keysOf H) s L h hU q x] at hy
     have := hx.2
     simp [hostBoundSat, keysL, hy.2.1] at this
   · exact hB
 
-theorem host_staticNode_mem (s : LState I HKey) (q : Req) (r : Route) :
+theorem host_staticNode_mem (s : LState I (HKeyG P)) (q : Req) (r : Route) :
     r ∈ rawRoutesOfList (s.map.filterMap (Host.staticNode I q)) ↔
-      ∃ e ∈ s.map, ∃ h', e.1 = HKey.static h' ∧ q.host = some h' ∧
+      ∃ e ∈ s.map, ∃ h', e.1 = HKeyG.static h' ∧ q.host = some h' ∧
         r ∈ rawRoutesOfList (I.trace e.2 q) := by
   rw [mem_rawRoutesOfList_filterMap]
   constructor
@@ -589,9 +589,9 @@ theorem host_staticNode_mem (s : LState I HKey) (q : Req) (r : Route) :
     · unfold Host.staticNode; simp [hk, hc]
     · simp only [Trace.rawRoutes_mk, TInfo.routes, List.nil_append]; exact hr
 
-theorem host_dynNode_mem (s : LState I HKey) (q : Req) (hh : String) (r : Route) :
-    r ∈ rawRoutesOfList (s.map.filterMap (Host.dynNode E I hh q)) ↔
-      ∃ e ∈ s.map, ∃ p, e.1 = HKey.dyn p ∧ E.hostFind p hh = true ∧
+theorem host_dynNode_mem (s : LState I (HKeyG P)) (q : Req) (hh : String) (r : Route) :
+    r ∈ rawRoutesOfList (s.map.filterMap (Host.dynNode H I hh q)) ↔
+      ∃ e ∈ s.map, ∃ p, e.1 = HKeyG.dyn p ∧ H.find p hh = true ∧
         r ∈ rawRoutesOfList (I.trace e.2 q) := by
   rw [mem_rawRoutesOfList_filterMap]
   constructor
@@ -603,7 +603,7 @@ theorem host_dynNode_mem (s : LState I HKey) (q : Req) (hh : String) (r : Route)
       simp only [hk, Option.some.injEq] at ht
       subst ht
       simp only [Trace.rawRoutes_mk, TInfo.routes, List.nil_append] at hr
-      by_cases hc : E.hostFind p hh = true
+      by_cases hc : H.find p hh = true
       · simp only [hc, if_true] at hr; exact ⟨e, he, p, hk, hc, hr⟩
       · simp [hc] at hr
   · rintro ⟨e, he, p, hk, hc, hr⟩
@@ -611,21 +611,21 @@ theorem host_dynNode_mem (s : LState I HKey) (q : Req) (hh : String) (r : Route)
     · unfold Host.dynNode; simp [hk, hc]
     · simp only [Trace.rawRoutes_mk, TInfo.routes, List.nil_append]; exact hr
 
-theorem host_traceFor_mem (s : LState I HKey) (q : Req) (hh : String) (r : Route) :
-    r ∈ rawRoutesOfList (Host.traceFor E I s q hh) ↔
-      r ∈ rawRoutesOfList (s.map.filterMap (Host.dynNode E I hh q)) := by
+theorem host_traceFor_mem (s : LState I (HKeyG P)) (q : Req) (hh : String) (r : Route) :
+    r ∈ rawRoutesOfList (Host.traceFor H I s q hh) ↔
+      r ∈ rawRoutesOfList (s.map.filterMap (Host.dynNode H I hh q)) := by
   unfold Host.traceFor
-  cases hx : (alookup (HKey.static hh) s.map).isNone
+  cases hx : (alookup (HKeyG.static hh) s.map).isNone
   · simp only [Bool.false_eq_true, if_false, rawRoutesOfList_append, rawRoutesOfList_singleton,
       Trace.rawRoutes_mk, TInfo.routes, List.nil_append, List.append_nil, rawRoutesOfList_nil]
   · simp only [if_true, rawRoutesOfList_append, rawRoutesOfList_singleton, Trace.rawRoutes_mk,
       TInfo.routes, List.nil_append, List.append_nil, rawRoutesOfList_nil]
 
-theorem host_traceBound_mem (s : LState I HKey) (L : List Route) (h : LRepr IL Host.keysOf s L)
+theorem host_traceBound_mem (s : LState I (HKeyG P)) (L : List Route) (h : LRepr IL (Host.keysOf H) s L)
     (hU : UIds L) (q : Req) (r : Route) :
-    r ∈ rawRoutesOfList (Host.traceBound E I s q) ↔ r ∈ Host.matchBound E I s q := by
-  rw [(host_bound_perm E s h.nodup q).mem_iff,
-    ← mem_trace_buckets IL Host.keysOf (Host.accepts E) s L h hU q r]
+    r ∈ rawRoutesOfList (Host.traceBound H I s q) ↔ r ∈ Host.matchBound H I s q := by
+  rw [(host_bound_perm H s h.nodup q).mem_iff,
+    ← mem_trace_buckets IL (Host.keysOf H) (Host.accepts H) s L h hU q r]
   unfold Host.traceBound
   rw [rawRoutesOfList_append, List.mem_append, host_staticNode_mem]
   cases hq : q.host with
@@ -655,19 +655,19 @@ theorem host_traceBound_mem (s : LState I HKey) (L : List Route) (h : LRepr IL H
         simp only [hk] at hc
         exact ⟨e, he, p, hk, hc, hr⟩
 
-theorem host_trace_unfold (s : LState I HKey) (q : Req) :
-    Host.trace E I s q =
-      if E.alwaysAnyHost || (routesOfList (Host.traceBound E I s q)).isEmpty
-      then Host.traceBound E I s q ++ I.trace s.any q else Host.traceBound E I s q := rfl
+theorem host_trace_unfold (s : LState I (HKeyG P)) (q : Req) :
+    Host.trace H I s q =
+      if H.always || (routesOfList (Host.traceBound H I s q)).isEmpty
+      then Host.traceBound H I s q ++ I.trace s.any q else Host.traceBound H I s q := rfl
 
-theorem host_mem_trace (s : LState I HKey) (L : List Route) (h : LRepr IL Host.keysOf s L)
+theorem host_mem_trace (s : LState I (HKeyG P)) (L : List Route) (h : LRepr IL (Host.keysOf H) s L)
     (hU : UIds L) (q : Req) (r : Route) :
-    r ∈ rawRoutesOfList (Host.trace E I s q) ↔ r ∈ Host.matchReq E I s q := by
-  have hb := host_traceBound_mem IL E s L h hU q
-  have hraw : ∀ y ∈ rawRoutesOfList (Host.traceBound E I s q), y ∈ L := by
+    r ∈ rawRoutesOfList (Host.trace H I s q) ↔ r ∈ Host.matchReq H I s q := by
+  have hb := host_traceBound_mem IL H s L h hU q
+  have hraw : ∀ y ∈ rawRoutesOfList (Host.traceBound H I s q), y ∈ L := by
     intro y hy
-    exact ((host_mem_bound IL E s L h hU q y).1 ((hb y).1 hy)).1
-  have hempty : (routesOfList (Host.traceBound E I s q)).isEmpty = (Host.matchBound E I s q).isEmpty := by
+    exact ((host_mem_bound IL H s L h hU q y).1 ((hb y).1 hy)).1
+  have hempty : (routesOfList (Host.traceBound H I s q)).isEmpty = (Host.matchBound H I s q).isEmpty := by
     rw [Bool.eq_iff_iff, isEmpty_iff_forall, isEmpty_iff_forall]
     constructor
     · intro hx x hx2
@@ -675,38 +675,38 @@ theorem host_mem_trace (s : LState I HKey) (L : List Route) (h : LRepr IL Host.k
     · intro hx x hx2
       exact hx x ((hb x).1 ((mem_routesOfList_iff L hU _ hraw x).1 hx2))
   rw [host_trace_unfold, host_match_unfold, hempty]
-  cases hc : (E.alwaysAnyHost || (Host.matchBound E I s q).isEmpty)
+  cases hc : (H.always || (Host.matchBound H I s q).isEmpty)
   · simp only [Bool.false_eq_true, if_false, hb]
   · simp only [if_true, rawRoutesOfList_append, List.mem_append, hb,
-      mem_any_trace IL Host.keysOf s L h hU q r]
+      mem_any_trace IL (Host.keysOf H) s L h hU q r]
 
 theorem hostSat_congr (L L' : List Route) (r : Route) (q : Req) (h : ∀ x, x ∈ L ↔ x ∈ L') :
-    hostSat IL E L r q = hostSat IL E L' r q := by
+    hostSat IL H L r q = hostSat IL H L' r q := by
   have hf : ∀ p : Route → Bool, ∀ x, x ∈ L.filter p ↔ x ∈ L'.filter p := by
     intro p x; simp only [List.mem_filter, h x]
-  have hbs : ∀ r', hostBoundSat IL E L r' q = hostBoundSat IL E L' r' q := by
+  have hbs : ∀ r', hostBoundSat IL H L r' q = hostBoundSat IL H L' r' q := by
     intro r'
     unfold hostBoundSat
     congr 1; funext k
-    rw [IL.sat_congr _ _ r' q (hf (inKey Host.keysOf k))]
-  have hany : L.any (fun r' => hostBoundSat IL E L r' q) = L'.any (fun r' => hostBoundSat IL E L' r' q) := by
+    rw [IL.sat_congr _ _ r' q (hf (inKey (Host.keysOf H) k))]
+  have hany : L.any (fun r' => hostBoundSat IL H L r' q) = L'.any (fun r' => hostBoundSat IL H L' r' q) := by
     rw [Bool.eq_iff_iff]
     simp only [List.any_eq_true]
     constructor
     · rintro ⟨x, hx, hs⟩; exact ⟨x, (h x).1 hx, by rw [← hbs]; exact hs⟩
     · rintro ⟨x, hx, hs⟩; exact ⟨x, (h x).2 hx, by rw [hbs]; exact hs⟩
   unfold hostSat
-  cases hk : Host.keysOf r with
+  cases hk : (Host.keysOf H) r with
   | none => simp only; rw [IL.sat_congr _ _ r q (hf _), hany]
   | some ks => simp only; exact hbs r
 
-def hostLaws : MLaws (hostOps E I) :=
-  outerLaws IL Host.keysOf (Host.matchReq E I) (Host.trace E I)
-    (hostSat IL E)
-    (fun L L' r q h => hostSat_congr IL E L L' r q h)
-    (fun s L q r h hU => host_mem_match IL E s L h hU q r)
-    (fun s L q h hU => host_nodup_match IL E s L h hU q)
-    (fun s L q r h hU => host_mem_trace IL E s L h hU q r)
+def hostLaws : MLaws (hostOps H I) :=
+  outerLaws IL (Host.keysOf H) (Host.matchReq H I) (Host.trace H I)
+    (hostSat IL H)
+    (fun L L' r q h => hostSat_congr IL H L L' r q h)
+    (fun s L q r h hU => host_mem_match IL H s L h hU q r)
+    (fun s L q h hU => host_nodup_match IL H s L h hU q)
+    (fun s L q r h hU => host_mem_trace IL H s L h hU q r)
 
 end
 
